@@ -145,6 +145,8 @@ class G:
         if r < 0.90 and in_loop:
             return "if (" + self.expr(vars_, 1) + ") " + self.r.choice(["break;", "continue;"])
         if r < 0.94 and in_func:
+            if self.r.random() < 0.3:
+                return "if (" + self.expr(vars_, 1) + ") return;"
             return "if (" + self.expr(vars_, 1) + ") return " + self.expr(vars_) + ";"
         if r < 0.97 and "throw" not in self.avoid:
             v = self.fresh("x")
